@@ -158,7 +158,32 @@ class NameLookupRewriteVisitor(NodeTransformerBase):
 
     def visit_FunctionDef(self, node: ast.FunctionDef) -> ast.AST:
         self.scopes[-1].add(node.name)
-        return super().generic_visit(node)
+
+        # Decorators and default values are evaluated in the enclosing
+        # scope.
+        node.decorator_list = [self.visit(d) for d in node.decorator_list]
+        args = node.args
+        args.defaults = [self.visit(d) for d in args.defaults]
+        args.kw_defaults = [
+            d if d is None else self.visit(d) for d in args.kw_defaults
+        ]
+
+        # The parameters and local names belong to the function only.
+        self.scopes.append(set(self.scopes[-1]))
+        try:
+            for arg in args.posonlyargs + args.args + args.kwonlyargs:
+                self.visit(arg)
+            for arg in (args.vararg, args.kwarg):
+                if arg is not None:
+                    self.visit(arg)
+            for child in ast.walk(node):
+                if isinstance(child, ast.Name) and \
+                        isinstance(child.ctx, ast.Store):
+                    self.scopes[-1].add(child.id)
+            node.body = [self.visit(stmt) for stmt in node.body]
+            return node
+        finally:
+            self.scopes.pop()
 
     def visit_alias(self, node: ast.alias) -> ast.AST:
         name = node.asname if node.asname is not None else node.name
